@@ -13,7 +13,7 @@ From HPBF Require Import Tape.
 Import ListNotations.
 Open Scope Z_scope.
 
-Inductive rop := REnter | RMov (d : Z) | RGet (k : Z) | RSet (k v : Z).
+Inductive rop := REnter | RMov (d : Z) | RMovU (d : Z) (* unchecked mode: no probe *) | RGet (k : Z) | RSet (k v : Z) | RPre (a b : Z) (* the caller's make_accessible(a, b) *).
 
 (** what a run lets the caller observe: values read, and whether a probe found the window end
     accessible (used to drive the implementation through the same history) *)
@@ -56,6 +56,13 @@ Fixpoint r_run (ops : list rop) (allocs : list bool) (t : rtape) : tres (list ro
                       end
           | RawOob i => RawOob i | TooLarge => TooLarge | AllocFail => AllocFail
           end
+      | RMovU d => r_run rest allocs (t_mov t d)
+      | RPre a b =>
+          let '(ok, allocs') := if grows t a b then next_alloc allocs else (true, allocs) in
+          match t_make_accessible pol ok t a b with
+          | TOk t' => r_run rest allocs' t'
+          | RawOob i => RawOob i | TooLarge => TooLarge | AllocFail => AllocFail
+          end
       | RGet k =>
           match r_get t k with
           | TOk v => match r_run rest allocs t with
@@ -79,6 +86,8 @@ Fixpoint r_spec (ops : list rop) (cells : Z -> Z) (pos : Z) : list Z :=
   | [] => []
   | REnter :: rest => r_spec rest cells pos
   | RMov d :: rest => r_spec rest cells (pos + d)
+  | RMovU d :: rest => r_spec rest cells (pos + d)
+  | RPre _ _ :: rest => r_spec rest cells pos
   | RGet k :: rest => cells (pos + k) :: r_spec rest cells pos
   | RSet k v :: rest => r_spec rest (fun i => if i =? pos + k then v else cells i) pos
   end.
@@ -89,6 +98,18 @@ Fixpoint rops_ok (mn mx : Z) (ops : list rop) (pos : Z) : bool :=
   | [] => true
   | REnter :: rest => rops_ok mn mx rest pos
   | RMov d :: rest => small (pos + d) && rops_ok mn mx rest (pos + d)
+  | RMovU _ :: _ | RPre _ _ :: _ => false
   | RGet k :: rest => (mn <=? k) && (k <=? mx) && rops_ok mn mx rest pos
   | RSet k _ :: rest => (mn <=? k) && (k <=? mx) && rops_ok mn mx rest pos
+  end.
+
+(** unchecked mode: the caller pre-allocates the cells [[-m, m]]; moves are not probed; every
+    operand access must fall on a cell of that region *)
+Fixpoint uops_ok (m : Z) (ops : list rop) (pos : Z) : bool :=
+  match ops with
+  | [] => true
+  | RMovU d :: rest => small (pos + d) && uops_ok m rest (pos + d)
+  | RGet k :: rest => (- m <=? pos + k) && (pos + k <=? m) && small k && uops_ok m rest pos
+  | RSet k _ :: rest => (- m <=? pos + k) && (pos + k <=? m) && small k && uops_ok m rest pos
+  | _ :: _ => false
   end.
